@@ -44,6 +44,10 @@ def configs(tier):
                     for suffix in (".bin", ".cbin"):
                         for stream in (("ap", "lf") if kind in ("3B2", "3A") and enc == "shank" else ("ap",)):
                             out.append(dict(kind=kind, var=var, enc=enc, sort=sort, suffix=suffix, stream=stream, imro_extra=0))
+    # recordings saved without the sync word
+    for kind in ("NP2.1", "NP2.4", "3B2", "NPultra"):
+        for suffix in (".bin", ".cbin"):
+            out.append(dict(kind=kind, var=0, enc="shank", sort=True, suffix=suffix, stream="ap", imro_extra=0, nsync=0))
     # imro table longer than the saved channels (SpikeGLX always writes 384 entries)
     out.append(dict(kind="3B2", var=0, enc="shank", sort=True, suffix=".bin", stream="ap", imro_extra=3))
     for suffix in (".bin", ".cbin"):
@@ -139,12 +143,12 @@ def _open_config(ci, tier="quick"):
     else:
         sites = _sites_for(kind, cfg["var"])
         k = len(sites)
-        nc = k + 1
-        nsync = 1
+        nsync = cfg.get("nsync", 1)
+        nc = k + nsync
         raw = synth.separating_data(NS, nc, seed=ci)
         gains = [(synth.GAINS[(2 * i + 1) % 8], synth.GAINS[(3 * i + 2) % 8]) for i in range(k)]
         gains_file = gains + [(3000, 50)] * cfg["imro_extra"]
-        items = synth.meta_items(kind, sites, NS, stream=cfg["stream"], encoding=cfg["enc"], gains=gains)
+        items = synth.meta_items(kind, sites, NS, stream=cfg["stream"], encoding=cfg["enc"], gains=gains, nsync=nsync)
         if cfg["imro_extra"]:
             # rewrite the imro table with extra trailing entries
             it2 = synth.meta_items(kind, sites + [(0, 9, 1 if synth.family(kind) != "NP1" else 1)] * 0, NS, stream=cfg["stream"],
@@ -154,7 +158,7 @@ def _open_config(ci, tier="quick"):
             items = [(a, hdr + ent) if a.endswith("imroTbl") else (a, b) for a, b in it2]
         stem = "c01_g0_t0.imec0.%s" % cfg["stream"]
         s2v = synth.ref_s2v(kind, cfg["stream"], k, nsync, gains=gains)
-        order = (synth.ref_sort_order(sites) if cfg["sort"] else list(range(k))) + [k]
+        order = (synth.ref_sort_order(sites) if cfg["sort"] else list(range(k))) + [k] * nsync
     fbin = synth.write_recording(d, stem, raw, items)
     if cfg["suffix"] == ".cbin":
         import mtscomp
